@@ -419,6 +419,12 @@ def run(f, fixture, rep, cfg, tier):
                   "%s: encoder %s decoder %s finish %s" % (v, [c.decl for c in enc_arms.get(v, []) if "new" in c.decl][:2], [c.decl for c in dec_arms.get(v, []) if "new" in c.decl][:2], [c.decl for c in fin_arms.get(v, [])][:2]), ds.span)
         rep.check(names_by_variant.get(v) == [hs], "R6", "codec|%s|header-string" % v, "%s is recorded as \"%s\"" % (v, hs), "%s is recorded as %s" % (v, names_by_variant.get(v)), pd.span)
         rep.check(ft.get(hs) == v, "R6", "codec|%s|parser-key" % v, "\"%s\" parses to %s" % (hs, v), "\"%s\" parses to %s" % (hs, ft.get(hs)), frm[0].span if frm else None)
+    # a decoder is used as constructed: any further call on it (window / memory limits, format switches) can make it refuse
+    # what the encoder of the same family legitimately produced
+    tuned = [c for c in ds.calls() if re.search(r"(Decoder|decoder)", c.decl) and not re.search(r"::new$", c.decl)
+             and not c.decl.startswith("std::") and not re.search(r"(Read::|BufRead::|Box)", c.decl)]
+    rep.check(not tuned, "R6", "codec|decoder-untuned", "decoders are used as constructed (no limits or options)",
+              "decompress_stream configures a decoder with %s: payloads the matching encoder produces within its documented range may be refused" % sorted({c.decl for c in tuned}), tuned[0].loc() if tuned else ds.span)
     rep.check(names_by_variant.get("None") == [] and "phi(" in comp, "R6", "codec|None|no-tag", "no compressor tag is written for uncompressed payloads", "None payloads record %s" % names_by_variant.get("None"), pd.span)
     gpc = f.one("PackageMetadata::get_payload_compressor")
     cl = f.closures_of(gpc)
